@@ -815,7 +815,7 @@ func writeSwitchCaseOverUnion(w *formatting.IndentedWriter, unionType *dsl.Gener
 
 func writeTypeConversion(w *formatting.IndentedWriter, t dsl.Type, next func()) {
 	getWrapper := func(t dsl.Type) (string, string) {
-		switch t := t.(type) {
+		switch t := dsl.GetUnderlyingType(t).(type) {
 		case *dsl.SimpleType:
 			switch t := t.ResolvedDefinition.(type) {
 			case dsl.PrimitiveDefinition:
